@@ -431,6 +431,50 @@ def extract_fn(item, opts, blocks, rewrites_log, as_stub=False):
                     q = e + 1; continue
             q += 1
 
+    # ---- R4g (opt rangeiter=1): `for V in X[LO..HI].iter() {` / `.iter_mut() {` with X any expression without braces
+    #      ->  `for verif_rN in LO..HI {`, and every `*V` in the loop body becomes `X[verif_rN]`
+    #      (std semantics of slice range indexing + iter / iter_mut: the elements LO..HI of X in order, by reference; an out-of-range HI panics at the slicing -
+    #       here at the first out-of-range element access, a difference only on paths that panic either way). LO and HI are the source's own expressions.
+    #      The `for` keeps its place, so loop / loopiter / loopstart / loopend blocks address it by ordinal as usual.
+    if opts.get('rangeiter') == '1' and not as_stub:
+        q = bodyp + 1; nr = 0
+        while q < bodye - 8:
+            if tk(q)[1] == 'for' and tk(q + 1)[0] == 'id' and tk(q + 2)[1] == 'in':
+                e = q + 3; dpt = 0
+                while e < bodye and not (tk(e)[1] == '{' and dpt == 0):
+                    if tk(e)[1] in ('(', '['): dpt += 1
+                    elif tk(e)[1] in (')', ']'): dpt -= 1
+                    e += 1
+                if tk(e)[1] == '{' and [tk(e - 4)[1], tk(e - 2)[1], tk(e - 1)[1]] == ['.', '(', ')'] and tk(e - 3)[1] in ('iter', 'iter_mut') and tk(e - 5)[1] == ']':
+                    # matching '[' of the range index
+                    ob = e - 6; dpt = 0
+                    while ob > q + 3:
+                        if tk(ob)[1] in (')', ']'): dpt += 1
+                        elif tk(ob)[1] in ('(', '['):
+                            if dpt == 0: break
+                            dpt -= 1
+                        ob -= 1
+                    dd = []; dpt = 0
+                    for i in range(ob + 1, e - 5):
+                        if tk(i)[1] in ('(', '['): dpt += 1
+                        elif tk(i)[1] in (')', ']'): dpt -= 1
+                        elif tk(i)[1] == '..' and dpt == 0: dd.append(i)
+                    if tk(ob)[1] == '[' and ob > q + 3 and len(dd) == 1 and dd[0] > ob + 1 and dd[0] < e - 6:
+                        nr += 1; v = tk(q + 1)[1]; iv = 'verif_r%d' % nr
+                        xexpr = text[tk(q + 3)[2]:tk(ob - 1)[3]]
+                        lo = text[tk(ob + 1)[2]:tk(dd[0] - 1)[3]]; hi = text[tk(dd[0] + 1)[2]:tk(e - 6)[3]]
+                        cb = match_close(toks, ci, e)
+                        edits.append((tk(q + 1)[2], tk(q + 1)[3], R('4', v, iv)))
+                        edits.append((tk(q + 3)[2], tk(e - 1)[3], R('4', text[tk(q + 3)[2]:tk(e - 1)[3]], '%s..%s' % (lo, hi))))
+                        for i in range(e + 1, cb):
+                            if tk(i)[0] == 'id' and tk(i)[1] == v:
+                                if tk(i - 1)[1] != '*' or tk(i - 2)[0] == 'id' or tk(i - 2)[1] in (')', ']'):
+                                    raise GenErr('%s: R4g: loop variable `%s` used other than as `*%s`' % (item.name, v, v))
+                                edits.append((tk(i - 1)[2], tk(i)[3], R('4', text[tk(i - 1)[2]:tk(i)[3]], '%s[%s]' % (xexpr, iv))))
+                        rewrites_log.append({'rule': 'R4', 'fn': item.name, 'before': re.sub(r'\s+', ' ', text[tk(q)[2]:tk(e)[3]])[:200], 'after': 'for %s in %s..%s { ... %s[%s] ... }' % (iv, lo, hi, xexpr, iv)})
+                        q = e + 1; continue
+            q += 1
+
     # ---- R4d (opt iter=1): `X.iter().for_each(|P| { B });` with X any place expression (e.g. self.coeff_modulus)
     #      ->  `for verif_k in verif_it: 0..X.len() { let P = &X[verif_k]; B }`   (ghost text: iterloop / iterbody / iterend, numbered after R4/R4b loops)
     if opts.get('iter') == '1' and not as_stub:
